@@ -306,3 +306,10 @@ def _other_arm(body, sw, cen_t):
 # sensitivity pack (thorough tier): each seeded edit must be reported by the named rule instance
 MUTANTS = [{'name': 'seeded-C11-a', 'patch': 'C11-a/patch.diff', 'expect': ('R11.3', 'create_rune_entry', 'RUNE_TO_RUNE_ID')},
            {'name': 'seeded-C11-b', 'patch': 'C11-b/patch.diff', 'expect': ('R11.2', 'tx_commits_to_rune', 'is_p2tr')}]
+
+
+# behaviour-preserving pack (thorough tier)
+NEUTRAL = [
+  {'name': 'commitment comparison commuted', 'file': 'src/index/updater/rune_updater.rs', 'old': '        if pushbytes.as_bytes() != commitment {', 'new': '        if commitment != pushbytes.as_bytes() {'},
+  {'name': 'confirmation test commuted', 'file': 'src/index/updater/rune_updater.rs', 'old': '        if confirmations >= u32::from(Runestone::COMMIT_CONFIRMATIONS) {', 'new': '        if u32::from(Runestone::COMMIT_CONFIRMATIONS) <= confirmations {'},
+]
